@@ -676,13 +676,17 @@ func (vc *VC) enterLoop(fr *Frame, li *loopInfo, merged *State, phiEntry map[*ss
 				st.mem["ML"] = vc.q.Define("ML$mrow", Store(m, r, nl))
 			}
 		}
+	}
+	{
+		// (also after a havoc-all: havocAll keeps the rows of every non-escaping local, which is right for a call
+		// but not for the loop's own stores into a local declared outside it)
 		for a, names := range li.modLocals {
 			p, ok := fr.vals[a]
 			if !ok {
 				continue
 			}
 			for name := range names {
-				if mods[name] {
+				if mods[name] && !all {
 					continue
 				}
 				_, cell := vc.memKindByName(name)
